@@ -17,7 +17,7 @@ extern "C" {
 const char* const PROPERTY_ID = "C17";
 const size_t PROPERTY_MAXLEN = 400;
 
-void property_init() {}
+void property_init() { vf::gen::g_huge_hosts = true; }
 
 namespace {
 
